@@ -1,9 +1,11 @@
 /-
   C49 — catalog changes are applied exactly and reflected in information_schema.
 
-  `step false` = the code as it is;  `step true` = the same with the proposed repair of
-  `CREATE OR REPLACE TABLE … AS <query>` (evaluate first, swap after).  Every theorem that does not
-  mention the flag holds for both.
+  `step true`  = the code as it is now: /repo commit 5758ed9 ("fix: evaluate the query of CREATE
+                 OR REPLACE TABLE ... AS before dropping the old table") — evaluate first, swap after;
+  `step false` = the pinned upstream code, for which "a failed statement changes nothing" is
+                 FALSE (witness `or_replace_failing_ctas_drops_table`).
+  Every theorem that does not mention the flag holds for both.
 -/
 import DfModel.Sm.Catalog
 import DfModel.Proofs.C49
@@ -394,12 +396,48 @@ def dropOfKind (r : List Ident) : Kind → Stmt
   | .base => .dropTable r false
   | .view => .dropView r false
 
-/-- **or_replace_eq_drop_create.** On an existing name, `CREATE OR REPLACE TABLE r <body>` does
-    exactly what `DROP TABLE r` (or `DROP VIEW r`, whichever the object is) followed by
-    `CREATE TABLE r <body>` does — the same final catalog and the same success/failure.  This is
-    the code AS IT IS (`step false`), and it includes the case where the body fails at run
-    time: then the name stays dropped (see §5). -/
-theorem or_replace_eq_drop_create (s : State) (r : List Ident) (b : TBody) (k : Key) (e : Entry)
+/-- bodies that do not read the catalog and do not fail at run time -/
+def bodyRuns : TBody → Bool
+  | .cols _ => true
+  | .as (.const _) => true
+  | _ => false
+
+/-- **or_replace_eq_drop_create.** On an existing name, `CREATE OR REPLACE TABLE r <body>` whose
+    body evaluates does exactly what `DROP TABLE r` (or `DROP VIEW r`, whichever the object is)
+    followed by `CREATE TABLE r <body>` does — the same final catalog and the same outcome. -/
+theorem or_replace_eq_drop_create (a : Bool) (s : State) (r : List Ident) (b : TBody) (k : Key)
+    (e : Entry) (hb : bodyRuns b = true) (hk : resolveRef r = some k) (he : lookup s k = some e) :
+    (step a s (dropOfKind r e.kind)).2 = .dropped ∧
+    (step a s (.createTable r false true b)).1
+      = (step a (step a s (dropOfKind r e.kind)).1 (.createTable r false false b)).1 ∧
+    (step a s (.createTable r false true b)).2
+      = relabel (step a (step a s (dropOfKind r e.kind)).1 (.createTable r false false b)).2 := by
+  have hdrop : step a s (dropOfKind r e.kind) = (removeObj s k, .dropped) := by
+    cases hkind : e.kind <;> simp [dropOfKind, step, execDrop, hk, he, hkind]
+  obtain ⟨cs, hp⟩ : ∃ cs, ∀ s', planBody s' b = .ok (cs, true) := by
+    cases b with
+    | cols cs => exact ⟨cs, fun _ => rfl⟩
+    | as q => cases q with
+      | const cs => exact ⟨cs, fun _ => rfl⟩
+      | src r' => simp [bodyRuns] at hb
+      | failing cs => simp [bodyRuns] at hb
+  rw [hdrop]
+  refine ⟨rfl, ?_, ?_⟩
+  all_goals
+    simp only [step, hk, hp, execCreateTable, he, lookup_removeObj_self, Bool.not_true,
+      Bool.and_false, Bool.false_eq_true, if_false]
+    try (cases (createFresh (removeObj s k) ⟨k, .base, cs, none, true⟩ true).2 <;> rfl)
+
+/-- … and when the body fails at run time the current handler reports the failure and keeps the
+    old object (evaluate first, swap after) -/
+theorem or_replace_failing_keeps_old (s : State) (r : List Ident) (cs : List Col) (k : Key)
+    (e : Entry) (hk : resolveRef r = some k) (he : lookup s k = some e) :
+    step true s (.createTable r false true (.as (.failing cs))) = (s, .err .runtime) := by
+  simp [step, hk, planBody, planQuery, execCreateTable, he]
+
+/-- the pinned UPSTREAM handler (`step false`) is DROP-then-CREATE even when the body fails at run
+    time: then the name stays dropped (see §5) -/
+theorem or_replace_eq_drop_create_upstream (s : State) (r : List Ident) (b : TBody) (k : Key) (e : Entry)
     (hb : bodyClosed b = true) (hk : resolveRef r = some k) (he : lookup s k = some e) :
     (step false s (dropOfKind r e.kind)).2 = .dropped ∧
     (step false s (.createTable r false true b)).1
@@ -436,8 +474,8 @@ theorem or_replace_view_eq_drop_create (a : Bool) (s : State) (r : List Ident) (
   rw [hdrop]
   simp only [step, planQuery, hk, execCreateView, he, lookup_removeObj_self]
 
-/-! ## 5. A failed statement must not change the catalog — true for the repaired handler,
-       FALSE for the code as it is (one arm) -/
+/-! ## 5. A failed statement must not change the catalog — TRUE for the code as it is now
+       (`step true`, /repo 5758ed9), FALSE for the pinned upstream handler (one arm) -/
 
 theorem createFresh_err (s : State) (e : Entry) (b : Bool)
     (h : (createFresh s e b).2.isErr = true) : (createFresh s e b).1 = s := by
@@ -564,9 +602,9 @@ theorem failed_stmt_aux (a : Bool) (s : State) (st : Stmt) (hw : Wf s)
 def failed_stmt_changes_nothing_statement (atomic : Bool) : Prop :=
   ∀ (s : State) (st : Stmt), Wf s → (step atomic s st).2.isErr = true → (step atomic s st).1 = s
 
-/-- with the repair ("evaluate first, swap after") every failing statement leaves the catalog
-    untouched -/
-theorem failed_stmt_changes_nothing_repaired : failed_stmt_changes_nothing_statement true := by
+/-- **failed_stmt_changes_nothing.** In the code as it is now every statement that reports
+    failure — any statement, any well-formed state — has left the catalog untouched. -/
+theorem failed_stmt_changes_nothing : failed_stmt_changes_nothing_statement true := by
   intro s st hw h
   refine failed_stmt_aux true s st hw ?_ h
   rintro r ine orr b rfl
@@ -585,8 +623,8 @@ def isOrReplaceTable : Stmt → Bool
   | .createTable _ false true _ => true
   | _ => false
 
-/-- the code as it is: every failing statement other than `CREATE OR REPLACE TABLE` leaves the
-    catalog untouched … -/
+/-- the pinned upstream code: every failing statement other than `CREATE OR REPLACE TABLE` leaves
+    the catalog untouched … -/
 theorem failed_stmt_changes_nothing_partial (s : State) (st : Stmt) (hw : Wf s)
     (hst : isOrReplaceTable st = false) (h : (step false s st).2.isErr = true) :
     (step false s st).1 = s := by
@@ -612,7 +650,7 @@ theorem failed_stmt_changes_nothing_partial (s : State) (st : Stmt) (hw : Wf s)
 /-- … and that arm really changes the catalog while reporting failure: after
     `CREATE TABLE t(a INT)`, the statement `CREATE OR REPLACE TABLE t AS <query failing at run
     time>` returns an error AND `t` is gone.  So the property's "a failed statement changes
-    nothing" is FALSE for the code as it is (kernel-checked witness). -/
+    nothing" was FALSE for the upstream code (kernel-checked witness; repaired by 5758ed9). -/
 theorem or_replace_failing_ctas_drops_table : ¬ failed_stmt_changes_nothing_statement false := by
   intro h
   let t : List Ident := [⟨['t'], false⟩]
@@ -868,7 +906,7 @@ private def cA : List Col := [⟨['a'], ['I','n','t','3','2'], true⟩]
 private def cB : List Col := [⟨['b'], ['I','n','t','6','4'], false⟩]
 
 example :
-    (run false init
+    (run true init
       [ .createTable [t ['T']] false false (.cols cA),                       -- created (as `t`)
         .createTable [q ['t']] false false (.cols cA),                       -- exists
         .createTable [q ['T']] true false (.cols cB),                        -- created: "T" ≠ t
